@@ -73,11 +73,11 @@ func (e *Env) call(x *ECall) Val {
 		return g.boolVal(and(not(eq(m.S, "nilptr")), app("select", app("select", e.heapGet(dk), m.S), k.S)))
 	case "is":
 		v := arg(0)
-		t := e.resolveType(x.Args[1].(*EType).Text)
+		t := e.resolveType(typeText(x.Args[1]))
 		return g.boolVal(g.tagTest(v.S, t))
 	case "\\as":
 		v := arg(0)
-		t := e.resolveType(x.Args[1].(*EType).Text)
+		t := e.resolveType(typeText(x.Args[1]))
 		if pointerShaped(t) {
 			return Val{S: app("i_val", v.S), Sort: "Ptr", GT: t}
 		}
@@ -440,7 +440,17 @@ func (g *Gen) specFunc(sf *SpecFunc) *specDef {
 		sorts = append(sorts, g.heapMapSort(k))
 		names = append(names, "h!"+sanitize(k))
 	}
-	if sf.Rec {
+	transparent := false
+	if g.FC != nil {
+		for _, n := range strings.Fields(g.FC.Opts["transparent"]) {
+			if n == sf.Name {
+				transparent = true
+			}
+		}
+	}
+	if sf.Rec || (!transparent && (strings.Contains(body.S, "(forall ") || strings.Contains(body.S, "(exists "))) {
+		// recursive or quantified bodies stay opaque: an uninterpreted symbol plus a definitional
+		// axiom triggered on applications (so equal arguments give equal values by congruence)
 		g.declFun(d.name, sorts, d.retSort)
 		call := d.name
 		if len(names) > 0 {
@@ -531,4 +541,21 @@ func (g *Gen) addAxiom(ax *Axiom) {
 	}
 	g.decl(fmt.Sprintf("(assert %s) ; axiom %s", body, ax.Name))
 	g.Assumptions["axiom "+ax.Name+": "+ax.Text] = true
+}
+
+// typeText renders an expression that denotes a type (*T, pkg.T, []T) back to text.
+func typeText(x Expr) string {
+	switch x := x.(type) {
+	case *EType:
+		return x.Text
+	case *EIdent:
+		return x.Name
+	case *EUnary:
+		if x.Op == "*" {
+			return "*" + typeText(x.X)
+		}
+	case *ESel:
+		return typeText(x.X) + "." + x.Sel
+	}
+	panic(specError{"expected a type, found " + exprString(x)})
 }
